@@ -21,6 +21,7 @@ BASE = dict(SuffixMatch=False, NoPrePass=False)
 CFG = {"synth": dict(MaxStreams=3, LabelIds={1, 2, 3, 4, 5, 6, 7, 8, 11, 15}, UserTree=0),
        "user": dict(MaxStreams=3, LabelIds={1, 5, 8, 9, 10, 11, 12, 13}, UserTree=1),
        "user2": dict(MaxStreams=3, LabelIds={1, 2, 5, 8, 11, 12, 14}, UserTree=2),     # a zone name used at two depths
+       "user3": dict(MaxStreams=3, LabelIds={1, 8, 9, 10, 12, 13, 16}, UserTree=3),     # a zone NAME that ends with another zone's name
        "tiny": dict(MaxStreams=2, LabelIds={1, 2, 4, 6, 7}, UserTree=0)}
 INVS = ["C10_ExactlyOneLeaf", "C10_OncePerAncestor", "C10_LeafIsOwn", "EmitCase"]
 USER_TREE = dict(name="Site", type="Site", children=[
@@ -29,7 +30,10 @@ USER_TREE = dict(name="Site", type="Site", children=[
 USER_TREE2 = dict(name="Site", type="Site", children=[
     dict(name="A", type="Process Zone", children=[dict(name="B", type="Process Zone", children=None)]),
     dict(name="B", type="Process Zone", children=None)])
-TREES = {1: USER_TREE, 2: USER_TREE2}
+USER_TREE3 = dict(name="Site", type="Site", children=[
+    dict(name="A", type="Process Zone", children=[dict(name="A1", type="Process Zone", children=None)]),
+    dict(name="BA1", type="Process Zone", children=None)])
+TREES = {1: USER_TREE, 2: USER_TREE2, 3: USER_TREE3}
 
 
 def tlc_cases(name, overrides=None, emit=True):
@@ -178,7 +182,7 @@ def check(prop, tier, run: Run, replay_case=None):
     run.assumptions += ["labels from a universe built to contain suffix/prefix pairs, the root name and generated unit-operation names (A, A/B, A/B/C, A/O1, A/O3, B, B/A, O1, Site); stream names s, s_2, s",
                         "user trees Site -> {A -> {A1}, B} and Site -> {A -> {B}, B} (a name used at two depths: ambiguous bare labels); two input classes are known findings (carved out by TLA+ predicates KFUnknown / KFNonLeaf)"]
     nontriv = set()
-    for name in ("synth", "user", "user2"):
+    for name in ("synth", "user", "user2", "user3"):
         res = tlc_cases(name)
         run.add_tlc(res, name)
         if res.violated:
